@@ -45,8 +45,8 @@ pub fn gen(r: &mut Rng, _i: u64) -> String {
         format!(
             "glue {} {} {}{}",
             r.chance(4, 5) as u8,
-            r.chance(1, 2) as u8,
-            r.chance(1, 2) as u8,
+            *r.pick(&["0", "0", "0", "1", "w", "p"]),
+            *r.pick(&["0", "0", "0", "1", "w", "p"]),
             gen_addrs(r)
         )
     }
@@ -97,8 +97,9 @@ pub fn run(toks: &[&str]) -> String {
             let mut cfg = TcpTransportConfig::default();
             cfg.happy_eyeballs_timeout =
                 (toks[1] == "1").then_some(std::time::Duration::from_secs(1));
-            cfg.local_address_ipv4 = (toks[2] == "1").then_some(Ipv4Addr::LOCALHOST);
-            cfg.local_address_ipv6 = (toks[3] == "1").then_some(Ipv6Addr::LOCALHOST);
+            // local addresses: loopback, the wildcard, or some other specific address
+            cfg.local_address_ipv4 = match toks[2] { "1" => Some(Ipv4Addr::LOCALHOST), "w" => Some(Ipv4Addr::UNSPECIFIED), "p" => Some(Ipv4Addr::new(192, 0, 2, 7)), _ => None };
+            cfg.local_address_ipv6 = match toks[3] { "1" => Some(Ipv6Addr::LOCALHOST), "w" => Some(Ipv6Addr::UNSPECIFIED), "p" => Some("2001:db8::7".parse().unwrap()), _ => None };
             let t: TcpTransport = TcpTransport::builder().with_config(cfg).with_gai_resolver().build();
             t.verif_connecting_order(parse_addrs(&toks[4..]))
         }
